@@ -250,7 +250,8 @@ type sortPass struct {
 
 func checkC19(w *World, r *Result) {
 	r.Explanation = "Decides structural necessary conditions of the assembly contract on generator.WriteDeclarations: ORD-5 every comparator, evaluated over the finite set of orderings of two declarations (ID <,=,> x Priority pairs), is a strict weak order; every sorting pass after the first is stable; the composition of the passes equals 'priority declarations first, then increasing ID'; PTH-C19a the emitting loop ranges over the sorted slice, every write of Content is guarded by a failed membership test on a set keyed by the declaration's ID that is updated in the same branch (first occurrence wins, each ID once), and is followed by a newline write; nothing else is written to the output. Does not decide: the functional specification over all lists as a statement about values (permutation invariance additionally needs equal IDs to carry equal content, which is a property of the generators: see DECL-ID in C01/C04)."
-	r.Rules = []string{"ORD-5 comparator tables", "ORD-5 stability", "ORD-5 composition", "PTH-C19a guarded emission", "SORT-PAR"}
+	r.Rules = []string{"ORD-5 comparator tables", "ORD-5 stability", "ORD-5 composition", "PTH-C19a guarded emission", "PTH-C19s unconditional passes", "SORT-PAR", "ALIAS-APPEND"}
+	aliasAppendRule(w, r, func(rel string) bool { return rel == "generator" })
 	r.Assumptions = []string{"sort.Slice/sort.SliceStable implement their documented contracts", "comparators are pure functions of the two elements (checked: they read only .ID/.Priority of decls[i], decls[j])"}
 	fi := w.MustFunc("generator.WriteDeclarations")
 	info := fi.Pkg.TypesInfo
@@ -279,6 +280,37 @@ func checkC19(w *World, r *Result) {
 		})
 		return found
 	}
+	// PTH-C19s: every ordering pass over the declaration list runs on every path (it is a top-level statement)
+	topLevel := map[ast.Node]bool{}
+	condSort := false
+	for _, st := range fi.Decl.Body.List {
+		if es0, ok := st.(*ast.ExprStmt); ok {
+			topLevel[es0.X] = true
+		}
+	}
+	ast.Inspect(fi.Decl.Body, func(n ast.Node) bool {
+		call, ok := n.(*ast.CallExpr)
+		if !ok || len(call.Args) != 2 {
+			return true
+		}
+		switch fullName(calleeOf(info, call)) {
+		case "sort.Slice", "sort.SliceStable", "slices.SortFunc", "slices.SortStableFunc":
+			if !topLevel[call] {
+				var cs []string
+				for _, c := range pathConds(fi.Decl, call) {
+					if c.expr != nil {
+						cs = append(cs, es(c.expr))
+					}
+				}
+				condSort = true
+				r.bad("PTH-C19s", name, fullName(calleeOf(info, call))+" under a condition", w.Pos(call.Pos()), "an ordering pass over the declarations runs only when {"+strings.Join(cs, ", ")+"}: on the other paths the list keeps the order in which it was supplied (priority declarations are not moved first, or IDs are not sorted)")
+			}
+		}
+		return true
+	})
+	if condSort {
+		return // the pipeline below assumes unconditional passes; the violation above is the verdict
+	}
 	for _, st := range fi.Decl.Body.List {
 		switch s := st.(type) {
 		case *ast.ExprStmt:
@@ -299,9 +331,9 @@ func checkC19(w *World, r *Result) {
 				if deduped {
 					r.bad("ORD-5", name, full+" after deduplication", w.Pos(call.Pos()), "duplicates are removed before this sorting pass: which copy of an ID survives (and hence its priority group and position) depends on the order in which the declarations were supplied")
 				}
-				fl, ok := call.Args[1].(*ast.FuncLit)
-				if !ok {
-					Undecided("comparator of %s is not a function literal", full)
+				fl := comparatorLit(info, fi, call.Args[1])
+				if fl == nil {
+					Undecided("comparator of %s is neither a function literal nor a local bound once to one", full)
 				}
 				if strings.HasPrefix(full, "slices.") {
 					Undecided("slices.SortFunc comparators (three-way) are not modelled")
